@@ -174,7 +174,7 @@ var dims = []dimension{
 			o.Spec.Logging.Mode = proxyv1alpha1.LogOff
 		}
 	}},
-	{"tls", []string{"none", "A", "B", "A-cert-only", "A-ca-only"}, func(o *proxyv1alpha1.UpstreamCluster, v string) {
+	{"tls", []string{"none", "A", "B", "A-cert-only", "A-ca-only", "A-renewed"}, func(o *proxyv1alpha1.UpstreamCluster, v string) {
 		names := o.Spec.SecureServing.ServerNames
 		o.Spec.SecureServing = proxyv1alpha1.SecureServing{ServerNames: names}
 		switch v {
@@ -182,6 +182,8 @@ var dims = []dimension{
 			o.Spec.SecureServing.CertData, o.Spec.SecureServing.KeyData, o.Spec.SecureServing.ClientCAData = matA.CertPEM, matA.KeyPEM, matA.CAPEM
 		case "B":
 			o.Spec.SecureServing.CertData, o.Spec.SecureServing.KeyData, o.Spec.SecureServing.ClientCAData = matB.CertPEM, matB.KeyPEM, matB.CAPEM
+		case "A-renewed": // the certificate re-issued under the SAME key
+			o.Spec.SecureServing.CertData, o.Spec.SecureServing.KeyData, o.Spec.SecureServing.ClientCAData = matA.RenewedCertPEM, matA.KeyPEM, matA.CAPEM
 		case "A-cert-only":
 			o.Spec.SecureServing.CertData = matA.CertPEM
 		case "A-ca-only":
